@@ -9,6 +9,7 @@ prints its answer through an output shaper.  A fault plan can make the peer
 misbehave.
 """
 import errno
+import io
 
 from .refmodels import cnfref
 
@@ -97,77 +98,170 @@ class SimSubprocess:
         self.real_open = real_open
         outer = self
 
+        class _PipeIn(io.RawIOBase):
+            """The write end of the solver's stdin, as the parent sees it
+            (wrapped in the usual Buffered / Text layers below)."""
+
+            def __init__(self, proc):
+                super().__init__()
+                self.proc = proc
+                self.buf = bytearray()
+                self.used = False
+                self.limit = None        # bytes accepted before EPIPE
+
+            def writable(self):
+                return True
+
+            def write(self, b):
+                if self.closed:
+                    raise ValueError("write to closed file")
+                b = bytes(b)
+                self.used = True
+                if self.limit is not None and len(self.buf) >= self.limit:
+                    outer.ctx.fault("EPIPE_on_solver_stdin")
+                    self.proc.rec["epipe"] = True
+                    raise BrokenPipeError(errno.EPIPE, "Broken pipe")
+                accept = len(b)
+                if self.limit is None:
+                    end = outer._exits_early(self.proc, bytes(self.buf) + b)
+                    if end is not None:
+                        # the solver has seen enough and is gone; what the
+                        # pipe still accepts depends on the system (short
+                        # write now, EPIPE on the next one)
+                        self.limit = end + outer.plan.get("pipe_capacity", 0)
+                if self.limit is not None:
+                    accept = max(1, min(len(b), self.limit - len(self.buf)))
+                self.buf += b[:accept]
+                return accept
+
+        class _PipeOut(io.RawIOBase):
+            """Read end of the solver's stdout / stderr."""
+
+            def __init__(self, proc, which):
+                super().__init__()
+                self.proc = proc
+                self.which = which
+                self.data = None
+                self.pos = 0
+
+            def readable(self):
+                return True
+
+            def readinto(self, b):
+                if self.data is None:
+                    si = self.proc.stdin
+                    if si is not None and not si.closed and \
+                            self.proc.spec_convention == "stdin_stdout":
+                        # a solver reads its standard input up to EOF: the
+                        # parent that waits for the answer first waits for
+                        # ever
+                        self.proc.rec["deadlock"] = True
+                        outer.ctx.fault("answer_read_before_stdin_closed")
+                    self.data = self.proc._raw_result()[self.which] or b""
+                n = min(len(b), len(self.data) - self.pos)
+                b[:n] = self.data[self.pos:self.pos + n]
+                self.pos += n
+                return n
+
         class Popen:
             pid = 4242
             returncode = 0
 
-            def __init__(self, args, stdin=None, stdout=None, stderr=None,
+            def __init__(self, args, bufsize=-1, executable=None,
+                         stdin=None, stdout=None, stderr=None,
                          text=None, universal_newlines=None, encoding=None,
-                         **kw):
+                         errors=None, **kw):
                 if isinstance(args, str):
                     args = args.split()
                 self.args = [str(a) for a in args]
-                self._text = bool(text or universal_newlines or encoding)
+                self._text = bool(text or universal_newlines or encoding
+                                  or errors)
+                self._enc = encoding or "utf-8"
+                self._errors = errors or "strict"
                 self._done = None
+                self._stderr_to = stderr
+                self.spec_convention = None
+                self.stdin = self.stdout = self.stderr = None
+                self._rawin = None
                 outer._popen(self, stdin, stdout, stderr)
-                p = self
-
-                class _In:
-                    def __init__(self):
-                        self.buf = bytearray()
-                        self.used = False
-
-                    def write(self, b):
-                        self.used = True
-                        if isinstance(b, str):
-                            b = b.encode("utf-8")
-                        self.buf += b
-                        return len(b)
-
-                    def flush(self):
-                        pass
-
-                    def close(self):
-                        pass
-
-                class _Out:
-                    def read(self, *a):
-                        return p._result()[0]
-
-                    def readlines(self):
-                        return p._result()[0].splitlines(True)
-
-                    def __iter__(self):
-                        return iter(self.readlines())
-
-                    def close(self):
-                        pass
-
-                self.stdin = _In() if stdin == PIPE else None
-                self.stdout = _Out() if stdout == PIPE else None
-                self.stderr = None
-
-            def _result(self, input=None):
-                if self._done is None:
-                    if input is None and self.stdin is not None and \
-                            self.stdin.used:
-                        input = bytes(self.stdin.buf)
-                    if isinstance(input, str):
-                        input = input.encode("utf-8")
-                    out, err = outer._communicate(self, input)
+                if stdin == PIPE:
+                    self._rawin = _PipeIn(self)
+                    self.stdin = io.BufferedWriter(self._rawin)
                     if self._text:
-                        out = out.decode("utf-8", "replace") \
-                            if out is not None else None
-                        err = err.decode("utf-8", "replace") \
-                            if err is not None else None
+                        self.stdin = io.TextIOWrapper(
+                            self.stdin, encoding=self._enc,
+                            errors=self._errors, write_through=True)
+                if stdout == PIPE:
+                    self.stdout = self._reader(0)
+                if stderr == PIPE:
+                    self.stderr = self._reader(1)
+
+            def _reader(self, which):
+                r = io.BufferedReader(_PipeOut(self, which))
+                if self._text:
+                    r = io.TextIOWrapper(r, encoding=self._enc,
+                                         errors=self._errors)
+                return r
+
+            def _raw_result(self, input=None):
+                """(stdout bytes, stderr bytes or None) of the peer."""
+                if self._done is None:
+                    if input is None and self._rawin is not None:
+                        try:
+                            if not self.stdin.closed:
+                                self.stdin.flush()
+                        except OSError:
+                            pass
+                        if self._rawin.used:
+                            input = bytes(self._rawin.buf)
+                    if isinstance(input, str):
+                        input = input.encode(self._enc)
+                    out, err = outer._communicate(self, input)
+                    err = outer._stderr_of(self) if err is None else err
+                    if self._stderr_to == STDOUT:
+                        outer.ctx.fault("solver_stderr_merged_into_stdout")
+                        if getattr(self, "spec", {}).get(
+                                "shape", {}).get("stderr_first"):
+                            out = err + (out or b"")
+                        else:
+                            out = (out or b"") + err
+                        err = None
+                    elif self._stderr_to != PIPE:
+                        err = None
                     self._done = (out, err)
                 return self._done
 
+            def _result(self, input=None):
+                out, err = self._raw_result(input)
+                if self._text:
+                    out = out.decode(self._enc, "replace") \
+                        if out is not None else None
+                    err = err.decode(self._enc, "replace") \
+                        if err is not None else None
+                return out, err
+
             def communicate(self, input=None, timeout=None):
-                return self._result(input)
+                # like the real one: feeds the input (a broken pipe is not
+                # an error here), closes stdin, collects both streams
+                if input is not None and self._rawin is not None:
+                    try:
+                        self.stdin.write(input)
+                        self.stdin.flush()
+                    except BrokenPipeError:
+                        pass
+                input = None
+                if self._rawin is not None:
+                    try:
+                        self.stdin.close()
+                    except OSError:
+                        pass
+                out, err = self._result(input)
+                if self.stdout is None:
+                    out = None
+                return out, err
 
             def wait(self, timeout=None):
-                self._result()
+                self._raw_result()
                 return self.returncode
 
             def poll(self):
@@ -178,10 +272,19 @@ class SimSubprocess:
 
             terminate = kill
 
+            def send_signal(self, sig):
+                pass
+
             def __enter__(self):
                 return self
 
             def __exit__(self, *exc):
+                for f in (self.stdin, self.stdout, self.stderr):
+                    try:
+                        if f is not None:
+                            f.close()
+                    except OSError:
+                        pass
                 return False
 
         self.Popen = Popen
@@ -265,13 +368,47 @@ class SimSubprocess:
         rec["outcome"] = "started"
         p.kind = "solve"
         p.spec = self.installed[name]
+        p.spec_convention = p.spec["convention"]
         p.rec = rec
         self.solve_calls.append(rec)
 
     # -- the peer ----------------------------------------------------------
+    _EMPTY_CLAUSE = b"\n0\n"
+
+    def _exits_early(self, p, received):
+        """Fault 'early_exit': a stdin solver that meets an empty clause
+        answers UNSATISFIABLE at once and exits without reading the rest.
+        Returns the number of bytes it has read, or None."""
+        if not self.plan.get("early_exit") or \
+                getattr(p, "kind", None) != "solve" or \
+                p.spec["convention"] != "stdin_stdout":
+            return None
+        i = bytes(received).find(self._EMPTY_CLAUSE)
+        if i < 0:
+            return None
+        if not p.rec.get("early_exit"):
+            p.rec["early_exit"] = True
+            self.ctx.fault("solver_exits_before_reading_all_input")
+        return i + len(self._EMPTY_CLAUSE)
+
+    def _stderr_of(self, p):
+        """What the solver prints on its standard error."""
+        if getattr(p, "kind", None) != "solve":
+            return b""
+        lines = p.spec.get("shape", {}).get("stderr") or []
+        return b"".join(STDERR_LINES[i % len(STDERR_LINES)] for i in lines)
+
     def _communicate(self, p, input):
         if getattr(p, "kind", None) != "solve":
             return (b"", b"")
+        if p.rec.get("early_exit") or (
+                input is not None and
+                self._exits_early(p, input) is not None):
+            p.rec["verdict"] = False
+            p.rec["model"] = None
+            p.rec["stdin"] = len(input or b"")
+            out = shape_dimacs_output(False, None, p.spec.get("shape", {}))
+            return (self._stdout_faults(out), None)
         spec = p.spec
         conv = spec["convention"]
         rec = p.rec
@@ -377,6 +514,13 @@ class SimSubprocess:
             f.write(data)
 
 
+# diagnostics a solver may print on its standard error (never part of the
+# answer, whatever they look like)
+STDERR_LINES = [b"solved in 0.02 seconds\n", b"version 1.2\n",
+                b"warning: no proof file\n", b"c stderr comment\n",
+                b"s SATISFIABLE\n", b"v 1 -1 0\n", b"\n"]
+
+
 def shape_dimacs_output(verdict, model, shape):
     """Render 's'/'v' lines according to *shape* (all legal DIMACS output)."""
     nl = b"\r\n" if shape.get("crlf") else b"\n"
@@ -473,4 +617,8 @@ def random_shape(rng):
     if rng.random() < 0.2:
         s["minisat_no_newline"] = True
     s["model_choice"] = rng.choice([0, 1, 2, 7, 100, 12345])
+    if rng.random() < 0.3:
+        # diagnostics on the standard error (indices into STDERR_LINES)
+        s["stderr"] = [rng.randrange(7) for _ in range(rng.randint(1, 3))]
+        s["stderr_first"] = rng.random() < 0.5
     return s
